@@ -172,6 +172,7 @@ class Gen:
             (f'for (;;) {{ {x} = {x} + 1; }}', 1), (f'do {x} = {x} + {y}; while ({x} < 10);', 1),
             (f'if ({x} < {y}) {z} = {x} * {y};', 1), (f'while ({x} < {y}) {z} = {z} + {x};', 1),
             (f'return {x} + {y};', 0), (f'{x} = {y} - {y};', 1),
+            (f'{x} = !({y}++);', 0), (f'-({y}++);', 0), (f'{x} = !(-{y});', 0), (f'{x} = sizeof(-{y});', 0), (f'{x} = !(!{y});', 0),
         ]
         s, nb = r.choice(forms)
         self.nbin += nb
